@@ -38,6 +38,16 @@ class Meta(type):
     return obj
 
 
+class _Refetch:
+  """stands for `inst.meth`: `.get()` fetches the attribute anew"""
+
+  def __init__(self, inst):
+    self.inst = inst
+
+  def get(self):
+    return self.inst.meth
+
+
 def shapes():
   def fn(a, b=2):
     """doc fn"""
@@ -145,10 +155,12 @@ def shapes():
 
   return {'fn': fn, 'wrapped_fn': wrapped, 'builtin': max, 'init': WithInit, 'new': WithNew, 'both': WithBoth, 'neither': Neither,
           'meta': WithMeta, 'slots': Slotted, 'namedtuple': NT, 'abc': Concrete, 'init_alias': InitAlias, 'new_alias': NewAlias,
-          'callable_obj': Call(), 'falsy_callable': FalsyCall(), 'bound_method': Call().meth}
+          'callable_obj': Call(), 'falsy_callable': FalsyCall(), 'bound_method': Call().meth,
+          # every attribute access makes a new bound-method object, equal to but not identical with the registered one
+          'bound_method_refetched': _Refetch(Call())}
 
 
-FN_LIKE = ('fn', 'wrapped_fn', 'callable_obj', 'falsy_callable', 'bound_method')
+FN_LIKE = ('fn', 'wrapped_fn', 'callable_obj', 'falsy_callable', 'bound_method', 'bound_method_refetched')
 
 
 PICKLE_SRC = '''
@@ -280,6 +292,9 @@ def run_shape(case):
     orig = g['Net']
   else:
     orig = table[shape]
+  refetch = orig if isinstance(orig, _Refetch) else None
+  if refetch is not None:
+    orig = refetch.get()
   is_class = inspect.isclass(orig)
   before = dict(vars(orig)) if is_class else None
   name = 'c13_' + shape
@@ -305,7 +320,7 @@ def run_shape(case):
     elif api == 'register':
       r = gin.register(name, module='c13')(orig)
       facts['register_returns_original'] = r is orig
-      returned = gin.get_configurable(orig)
+      returned = gin.get_configurable(refetch.get() if refetch else orig)
     else:
       returned = gin.external_configurable(orig, name=name, module='c13')
   except Exception as e:  # pylint: disable=broad-except
@@ -315,7 +330,12 @@ def run_shape(case):
     if param:
       gin.bind_parameter(f'c13.{name}.{param}', 99)
       gin.bind_parameter(f'sc/c13.{name}.{param}', 77)
-    cfgd = gin.get_configurable(f'sc/c13.{name}') if scoped else (returned if api != 'register' else gin.get_configurable(orig))
+    cfgd = gin.get_configurable(f'sc/c13.{name}') if scoped else (
+        returned if api != 'register' else gin.get_configurable(refetch.get() if refetch else orig))
+    if refetch is not None:
+      # the registry's version is reached through the original object, however often it is fetched anew
+      facts['reached_through_object'] = dict(gin.get_bindings(refetch.get())) == {param: 99} and \
+          callable(gin.get_configurable(refetch.get()))
   except Exception as e:  # pylint: disable=broad-except
     return dict(facts, error=f'the registered object cannot be configured / fetched by name: {type(e).__name__}: {e}'[:200])
   want_b = 77 if scoped else 99
@@ -345,6 +365,26 @@ def run_shape(case):
       facts['caller_wins'] = (c2 == ('fn', 1, 5)) if shape in FN_LIKE else (getattr(c2, 'b', None) == 5)
     except Exception as e:  # pylint: disable=broad-except
       facts['caller_wins'] = f'raised {type(e).__name__}: {e}'[:120]
+  if shape in ('fn', 'init') and scoped:
+    # the name registered again inside interactive mode: a scoped lookup made before must not stand for it afterwards
+    try:
+      with gin.config.interactive_mode():
+        if shape == 'fn':
+          def fn(a, b=2):      # pylint: disable=function-redefined
+            return ('fn2', a, b)
+          gin.external_configurable(fn, name=name, module='c13')
+          again = gin.get_configurable(f'sc/c13.{name}')(1)
+          facts['scoped_lookup_follows'] = again == ('fn2', 1, want_b) or f'the scoped lookup still runs the old function: {again}'
+        else:
+          class WithInit2:
+            def __init__(self, a, b=2):
+              self.a, self.b, self.v2 = a, b, True
+          gin.external_configurable(WithInit2, name=name, module='c13')
+          again = gin.get_configurable(f'sc/c13.{name}')(1)
+          facts['scoped_lookup_follows'] = (getattr(again, 'v2', False) and again.b == want_b) or \
+              f'the scoped lookup still builds the old class: {type(again).__name__}'
+    except Exception as e:  # pylint: disable=broad-except
+      facts['scoped_lookup_follows'] = f'raised {type(e).__name__}: {e}'[:160]
   if is_class:
     has_overrides = shape == 'with_method' and api in ('register', 'external')
     facts['isinstance'] = isinstance(c, orig)
@@ -492,7 +532,7 @@ def oracle(case, impl):
   for k in ('register_returns_original', 'direct_untouched', 'injected', 'isinstance', 'issubclass', 'name_doc_module',
             'class_dict_unchanged', 'pickles', 'meta_ran', 'name_doc_sig', 'equal_but_distinct_rejected',
             'method_via_function_object', 'duplicate_rejected', 'registry_unchanged',
-            'first_still_registered', 'caller_wins'):
+            'first_still_registered', 'caller_wins', 'reached_through_object', 'scoped_lookup_follows'):
     if k in f and f[k] is not True and f[k] is not None:
       return f'{tag}: {k} = {f[k]}'
   if 'exact_type' in f and f['exact_type_expected'] and not f['exact_type']:
